@@ -680,13 +680,13 @@ def instances_case(draw, same_nmne: bool = False):
 
 def worker(ctx: Ctx):
     q = ctx.tier == "quick"
-    hyp_run(ctx, episode_case(), run_case, 10 if q else 350, sub=0)
+    hyp_run(ctx, episode_case(), run_case, 10 if q else 150, sub=0)
     paths = [p for p in usable_shipped() if "uc7" not in p]
-    hyp_run(ctx, episode_case(paths), run_case, 3 if q else 100, sub=1)
-    hyp_run(ctx, rvc_case(), run_case, 6 if q else 200, sub=2)
-    hyp_run(ctx, folder_episode_case(), run_case, 3 if q else 100, sub=4)
-    hyp_run(ctx, genfolder_episode_case(), run_case, 4 if q else 150, sub=5)
-    hyp_run(ctx, instances_case(same_nmne="C04-nmne-config-global" in ctx.excl), run_case, 6 if q else 250, sub=3)
+    hyp_run(ctx, episode_case(paths), run_case, 3 if q else 40, sub=1)
+    hyp_run(ctx, rvc_case(), run_case, 6 if q else 100, sub=2)
+    hyp_run(ctx, folder_episode_case(), run_case, 3 if q else 40, sub=4)
+    hyp_run(ctx, genfolder_episode_case(), run_case, 4 if q else 60, sub=5)
+    hyp_run(ctx, instances_case(same_nmne="C04-nmne-config-global" in ctx.excl), run_case, 6 if q else 100, sub=3)
     # reset vs construction with the constructed environment being the FIRST one of a fresh interpreter
     from .c03 import collect
 
@@ -699,14 +699,14 @@ def worker(ctx: Ctx):
         c["mode"] = "pristine"
         return c
 
-    cases = collect(pristine_case(), 2 if q else 24, ctx.wseed * 10 + 7)
+    cases = collect(pristine_case(), 2 if q else 12, ctx.wseed * 10 + 7)
     for i in range(0, len(cases), 4):
         part = cases[i:i + 4]
         for case, out in zip(part, run_pristine_batch(part, f"w{ctx.idx}-{i}")):
             ctx.record(case, judge_pristine(case, out))
     # the same episode in a pristine interpreter vs in this (by now well used) process after yet another environment
     sh = [p for p in paths if "data_manipulation" in p or "multi_lan" in p or "basic" in p.lower()]
-    cases = collect(polluted_case(sh), 3 if q else 32, ctx.wseed * 10 + 9)
+    cases = collect(polluted_case(sh), 3 if q else 16, ctx.wseed * 10 + 9)
     for i in range(0, len(cases), 4):
         part = cases[i:i + 4]
         for case, out in zip(part, run_pristine_batch(part, f"p{ctx.idx}-{i}", rvc=False)):
